@@ -70,7 +70,10 @@ def grid(seed, dname, paths=None):
         for j in range(6):
             ks.append(fresh("present"))
         ks.append(fresh("absent"))
-        tests.append({"op": "mdel", "c": path, "d": dname, "ks": ks})
+        # two of the keys are named twice: the answer counts the keys NAMED, through every path (seeded/C15-g: the cluster client
+        # dropped repeated keys before sending DM.DEL and answered the number of distinct ones)
+        named = ks[:3] + [ks[0]] + ks[3:] + [ks[1]]
+        tests.append({"op": "mdel", "c": path, "d": dname, "ks": named})
         for kk in ks:
             finals.append({"op": "get", "c": "emb@owner", "d": dname, "k": kk})
             finals.append({"op": "dump", "d": dname, "k": kk})
